@@ -12,7 +12,7 @@ pub type RequestId = i32;
 pub struct Control { pub x: u8 }
 pub struct StructureTag { pub id: u64, pub payload: Vec<u8> }
 pub struct LdapResult { pub rc: u32, pub matched: String, pub text: String, pub refs: Vec<String>, pub ctrls: Vec<Control> }
-pub enum SearchItem { Entry(StructureTag), Referral(StructureTag), Done(LdapResult) }
+//@item file=src/search.rs kind=enum name=SearchItem
 pub struct ResultEntry(pub StructureTag, pub Vec<Control>);
 pub enum LdapError { EndOfStream, Timeout, IdScrubSend, OpSend, ResultRecv, FilterParsing, Other(u8) }
 pub type Result<T> = core::result::Result<T, LdapError>;
